@@ -64,6 +64,7 @@ Step(S, r) ==
     CASE r.op = "seek_relative" -> LET j == LastSeekOk(r.calls) IN
                                    IF j = 0 THEN S ELSE IF r.calls[j].k >= 1073741824 THEN [S EXCEPT !.pos = r.pos] ELSE [S EXCEPT !.pos = FromSmall(r.calls[j].k)]
       [] r.op \in SeekOps -> IF r.tret.k = "ok" THEN [S EXCEPT !.pos = r.tret.n] ELSE S
+      [] r.op = "reset_bar" -> [S EXCEPT !.pos = Zero, !.fin = FALSE]          \* the caller's own reset(): the configured finish behaviour applies again at the next exhaustion
       [] r.op = "poke" -> [S EXCEPT !.pos = FromSmall(1), !.msg = "z"]          \* the caller's own set_position(1), set_message("z")
       [] OTHER -> Fold(S, r.calls, 1)
 
